@@ -88,9 +88,16 @@ def run(prop, tier, seed, t0):
         bind2 = V.build('asan')
         work2 = os.path.join(work, 'asan')
         os.makedirs(work2, exist_ok=True)
-        traces2 = V.run_scripts(bind2, scripts, work2, prog=P.get('prog', 'mdrive'), lifecycle=False,
+        # (the one-execution-per-transition scripts of the lifecycle model are very many and very
+        # short: a seeded sample of them is repeated under the sanitizer)
+        skip = P.get('asan_sample_prefix')
+        ascripts = scripts
+        if skip:
+            rest = [sc for sc in scripts if sc[0].startswith(skip)]
+            ascripts = [sc for sc in scripts if not sc[0].startswith(skip)] + random.Random(seed).sample(rest, min(2000, len(rest)))
+        traces2 = V.run_scripts(bind2, ascripts, work2, prog=P.get('prog', 'mdrive'), lifecycle=False,
                                 timeout=P.get('timeout', 120) * 3)
-        for (name, _), t in zip(scripts, traces2):
+        for (name, _), t in zip(ascripts, traces2):
             script_of[t] = os.path.join(work2, 'scripts', name + '.txt')
         v, k, st, tr, nl = V.validate(traces2, API[0], API[1], work2, tag='asan', env=P.get('env'))
         viols += v
@@ -2784,7 +2791,7 @@ def plan_c17(tier, seed, rng):
         gstats.append(st)
     shutil.rmtree(gwork, ignore_errors=True)
     return dict(
-        scripts=scripts, validators=[API, STORE], tags={'C17', 'C16', 'HELD', 'C06', 'C07', 'C02'}, asan=True,
+        scripts=scripts, validators=[API, STORE], tags={'C17', 'C16', 'HELD', 'C06', 'C07', 'C02'}, asan=True, asan_sample_prefix='b',
         mc=[('MddApiMC.tla', 'ApiLifeMC3.cfg' if tier == 'thorough' else 'ApiLifeMC.cfg', {})],
         rule='spec -> code: every transition of the bounded lifecycle model MddApiGen %s is replayed through the library (one execution per transition: a shortest path to its source state, the step, an observation of all edges) and validated; ' % '; '.join('bounds ND,NF,NS=%s: %d states, %d transitions, %d executions' % (st['bounds'], st['states'], st['transitions'], st['executions']) for st in gstats) +
              'model: every order of initialise / create domain / create forest / new, copy, assign, attach, delete edge / build / union / destroy forest / '
